@@ -34,7 +34,7 @@ META = {
                      "reference require in Lua (vlib/c05_gen.py)", "harness/crates/c05 + astdump",
                      "darklua's parser (reading entry, modules, written bundle)"],
     "allowed_axioms": [],
-    "rule": "seeded acyclic module graphs of 2-7 files (Lua modules returning tables/functions/strings/numbers/booleans, "
+    "rule": "120 (thorough 1000) seeded acyclic module graphs of 2-7 files (Lua modules returning tables/functions/strings/numbers/booleans, "
             "json/json5/yaml/toml/txt data files) with shared and diamond dependencies, several relative spellings of a "
             "file, requires in 18 syntactic positions, identically named locals, excludes, skipped call forms, x require "
             "mode {path, luau} x generator {readable, dense, retain_lines} x optional rule pipeline; the same relative "
@@ -59,10 +59,9 @@ Open Scope N_scope.
 Open Scope string_scope.
 Definition bx := unhex.
 Definition nm := of_string.
-Definition FUEL := %d%%nat.
-(* case = (reference program, bundle) *)
-Definition stat_case (c : block * block) : N := compare_all FUEL (fst c) (snd c).
-""" % FUEL
+(* case = (fuel, (reference program, bundle)) *)
+Definition stat_case (c : nat * (block * block)) : N := compare_all (fst c) (fst (snd c)) (snd (snd c)).
+"""
 
 SHAPE_PREAMBLE = """From Coq Require Import NArith List Bool.
 From DL Require Import Lib.Bytes Lua.RunCheck Model.Rename Model.Bundle.
@@ -116,6 +115,7 @@ Definition diag_case (c : name * block) : string := "the prefix of the bundle is
 
 KEY_SHADOW = "require-shadowing-ignored-in-required-module:DefaultVisitor"
 KEY_NIL = "nil-module-value:boxed-cache-returns-nil"
+KEY_JSON5 = "json5-nonfinite-number-becomes-nil@serde_json::Value"
 KEY_DOT = "same-file-two-path-keys:root-level-module-requires-dot-prefixed"
 KEY_DATA_ERR = "malformed-data-error-does-not-name-the-file:transcode"
 
@@ -318,15 +318,15 @@ def model_cases(projects, results):
 # ---------------------------------------------------------------------------------------------
 
 
-def behaviour_stream(ctx, rnd, n_random, proofs_ok):
+def behaviour_stream(ctx, rnd, n_random, proofs_ok, wide_widths=(140,)):
     projects, jobs, meta = {}, [], {}
     pid = 0
 
-    def add(proj, generator, rules, ident, klass):
+    def add(proj, generator, rules, ident, klass, fuel=None):
         nonlocal pid
         pid += 1
         projects[pid] = proj
-        meta[pid] = {"generator": generator, "rules": rules, "modules_identifier": ident, "class": klass}
+        meta[pid] = {"generator": generator, "rules": rules, "modules_identifier": ident, "class": klass, "fuel": fuel}
         jobs.append({"id": pid, "files": proj["files"], "entry": proj["entry"],
                      "config": config_text(proj, generator, rules, ident), "reference": proj["reference"],
                      "modules_identifier": ident or "__DARKLUA_BUNDLE_MODULES"})
@@ -359,6 +359,28 @@ def behaviour_stream(ctx, rnd, n_random, proofs_ok):
             k += 1
             add(G.data_holes_project(rnd, "luau" if k % 3 == 0 else "path", fmt, holes), GENERATORS[k % 3],
                 rnd.choice([[], [], ["remove_unused_variable", "rename_variables"]]), None, "ordinary")
+    # TOML special floats / datetimes / integers beyond 2^53, YAML .inf/.nan; JSON5 Infinity/NaN (recorded finding)
+    for kind, fmt in (("toml-specials", "toml"), ("toml-specials", "toml"), ("toml-specials", "toml"), ("yaml-specials", "yaml")):
+        k += 1
+        add(G.data_holes_project(rnd, "luau" if k % 2 else "path", fmt, kind), GENERATORS[k % 3],
+            rnd.choice([[], ["remove_unused_variable", "rename_variables"]]), None, "ordinary")
+    k += 1
+    add(G.data_holes_project(wrnd0, "path", "json5", "json5-nonfinite"), GENERATORS[k % 3], [], None, "json5nonfinite")
+    # `;` after the last statement of blocks (with a comment behind it), entry shorter / longer than the modules
+    semis = {}
+    for gi, generator in enumerate(GENERATORS):
+        for entry_long in (False, True):
+            for rep in range(2 if generator == "retain_lines" else 1):
+                k += 1
+                proj = G.semicolon_project(rnd, "luau" if k % 4 == 0 else "path", entry_long, k)
+                add(proj, generator, [], None, "ordinary")
+                semis[pid] = proj
+    # a wide project: more accessor names than there are one-letter identifiers
+    wide = {}
+    for width in wide_widths:
+        k += 1
+        add(G.wide_project(rnd, "path" if k % 2 else "luau", width), GENERATORS[k % 3], [], None, "ordinary", fuel=2 * width + 500)
+        wide[pid] = width
     # a root-level module that requires a file also required from a sub-directory: recorded finding
     for vt in (["table", "table"], ["func", "table"]):
         k += 1
@@ -393,7 +415,16 @@ def behaviour_stream(ctx, rnd, n_random, proofs_ok):
             continue
         k = len(coq_cases)
         index[k] = j["id"]
-        coq_cases.append((k, "(%s, %s)" % (cols[1], cols[0])))
+        coq_cases.append((k, "(%d%%nat, (%s, %s))" % (meta[j["id"]]["fuel"] or FUEL, cols[1], cols[0])))
+    # the big (wide) programs first, each sharing its shard with the smallest programs: that shard starts at once
+    big = [c for c in coq_cases if meta[index[c[0]]]["fuel"]]
+    rest = sorted((c for c in coq_cases if not meta[index[c[0]]]["fuel"]), key=lambda c: len(c[1]))
+    coq_cases = []
+    for c in big:
+        coq_cases += [c] + rest[:11]
+        rest = rest[11:]
+    random.Random(1).shuffle(rest)
+    coq_cases += rest
     stats = C.run_coq_stats(ctx.prop, PREAMBLE, coq_cases, chunk=12, tag="behaviour")
     same = [index[k] for k, v in stats.items() if v == 0]
     noverdict = [index[k] for k, v in stats.items() if v == 1]
@@ -436,6 +467,8 @@ def behaviour_stream(ctx, rnd, n_random, proofs_ok):
             key = KEY_NIL
         if klass == "dotprefix":
             key = KEY_DOT
+        if klass == "json5nonfinite":
+            key = KEY_JSON5
         ctx.violation("the bundle behaves differently from the entry run with a standard require",
                       replay_of(p, {"class": klass}), key=key)
     for p, status, message in failures:
@@ -445,12 +478,46 @@ def behaviour_stream(ctx, rnd, n_random, proofs_ok):
             {"ERR": "reports an error", "PANIC": "panics", "HANG": "hangs", "BAD": "writes an unparsable bundle",
              "CRASH": "crashes"}[status],
             message[:300]), replay_of(p, {"class": klass, "status": status}), key=key)
-    for klass, key in (("shadow", KEY_SHADOW), ("nil", KEY_NIL), ("dotprefix", KEY_DOT)):
+    for klass, key in (("shadow", KEY_SHADOW), ("nil", KEY_NIL), ("dotprefix", KEY_DOT), ("json5nonfinite", KEY_JSON5)):
         hit = [p for p in differ if meta[p]["class"] == klass] + [p for p, _, _ in failures if meta[p]["class"] == klass]
         if not hit and key in ctx.known:
             # the recorded deviation no longer shows: say so (the entry of known_findings.txt is stale)
             print("NOTE: known finding %s was not reproduced in this run" % key)
 
+    # wide projects: every accessor name is a distinct identifier that is not a keyword (read off the real bundle)
+    names_checked = 0
+    for p, width in wide.items():
+        status, _ = unhex_msg(results[p][0])
+        if status != "OK":
+            continue
+        mods, _entry = parse_shape(results[p][3])
+        names = [m[0] for m in mods]
+        names_checked += len(names)
+        badn = [n for n in names if not re.match(r"^[A-Za-z_][A-Za-z0-9_]*$", n) or n in G.LUA_KEYWORDS or n == "cache"]
+        if len(names) != width + 1 or len(set(names)) != len(names) or badn:
+            ctx.violation("the accessor names of a bundle of %d modules are not %d distinct non-keyword identifiers "
+                          "(%d names, %d distinct, offending: %s)" % (width + 1, width + 1, len(names), len(set(names)), badn[:5]),
+                          replay_of(p), key="accessor-names:%d" % width)
+    # retain_lines keeps every `;` that ends a block together with the comment behind it, once
+    tags_checked = 0
+    for p, proj in semis.items():
+        status, _ = unhex_msg(results[p][0])
+        if status != "OK" or meta[p]["generator"] != "retain_lines":
+            continue
+        text = bytes.fromhex(results[p][2]).decode("utf-8", "replace")
+        for t in proj["tags"]:
+            tags_checked += 1
+            n_all = text.count(t)
+            n_semi = len(re.findall(r";[ \t]*" + re.escape(t), text))
+            if n_all != 1 or n_semi != 1:
+                ctx.violation("retain_lines: the `;` after a last statement and its comment %s are written %d / %d times "
+                              "(expected once each)" % (t, n_semi, n_all), replay_of(p, {"tag": t, "output": text[:6000]}),
+                              key="semicolon-comment:%s" % meta[p]["generator"])
+                break
+    ctx.stream("text of the real bundle: accessor names of the wide project(s) are distinct non-keyword identifiers; "
+               "retain_lines writes every block-ending `;` and the comment behind it exactly once",
+               names_checked + tags_checked, names_checked + tags_checked, [], accessor_names=names_checked,
+               semicolon_comments=tags_checked, wide_modules=[w + 1 for w in wide.values()])
     # model = code on the same projects (no rule pipeline: names and markers are intact)
     shape_results = {p: (results[p + 100000] if meta[p]["rules"] else results[p]) for p in projects}
     plain = {p: projects[p] for p in projects if unhex_msg(shape_results[p][0])[0] in ("OK", "ERR")
@@ -640,7 +707,8 @@ def run(ctx):
     rnd = random.Random(ctx.seed * 7919 + 5)
     quick = ctx.tier == "quick"
 
-    bad1, projects, meta, results = behaviour_stream(ctx, rnd, 150 if quick else 1000, proofs_ok)
+    widths = (140,) if quick else (140, max(G.modules_needed_to_reach(w) for w in ("do", "if", "in", "or")) + 15)
+    bad1, projects, meta, results = behaviour_stream(ctx, rnd, 120 if quick else 1000, proofs_ok, widths)
     bad2, sprojects, sresults = small_graph_stream(ctx, rnd, [2, 3] if quick else [2, 3, 4], None)
     bad3, dprojects, dresults = defect_stream(ctx, rnd)
     bad4, nprojects, nresults = samename_stream(ctx, rnd)
@@ -678,7 +746,7 @@ def replay(ctx, path):
         if cols[2] != "-":
             print(bytes.fromhex(cols[2]).decode("utf-8", "replace"))
         if status == "OK" and rep.get("reference"):
-            stats = C.run_coq_stats(ctx.prop, PREAMBLE, [(0, "(%s, %s)" % (cols[1], cols[0]))], tag="replay")
+            stats = C.run_coq_stats(ctx.prop, PREAMBLE, [(0, "(%d%%nat, (%s, %s))" % (4 * len(rep["files"]) + FUEL, cols[1], cols[0]))], tag="replay")
             print("compare_all:", {0: "same behaviour", 1: "no verdict", 2: "DIFFERENT behaviour"}[stats[0]])
             return 1 if stats[0] == 2 else 0
         return 1 if status != "OK" else 0
